@@ -50,6 +50,10 @@ def decode_payload(x):
     if isinstance(x, dict):
         if set(x) == {'$dt'}:
             return _dt.datetime.fromisoformat(x['$dt'])
+        if set(x) == {'$bytes'}:
+            return bytes.fromhex(x['$bytes'])  # e.g. 'fffe': not valid UTF-8 -> cannot be serialised to JSON
+        if set(x) == {'$object'}:
+            return object()  # unknown type -> cannot be serialised to JSON
         return {k: decode_payload(v) for k, v in x.items()}
     if isinstance(x, list):
         return [decode_payload(v) for v in x]
@@ -256,6 +260,21 @@ async def run_prog(w: World, prog, actor: str, depth: int, in_handler: bool, sid
             w.last_progress = w.loop.time()  # a scripted sleep ending is progress (silence detector)
         elif o == 'burn':
             w.loop.burn(op[1])
+        elif o == 'dispatch_noloop':
+            # dispatch() as a worker thread would see it: the handler's context, but no running event loop
+            _, busn, typ, opts, var = op
+            if in_handler and depth >= sc.get('max_depth', 2):
+                continue
+            name, ev = w.new_event(typ, depth + 1 if in_handler else 0, dict(opts or {}), actor, f'{sid_prefix}.{opi}')
+            from asyncio import events as _ev
+            running = _ev._get_running_loop()
+            _ev._set_running_loop(None)
+            try:
+                ok = do_dispatch(w, actor, busn, name, ev)
+            finally:
+                _ev._set_running_loop(running)
+            if var:
+                binds[var] = (name, ev, ok)
         elif o in ('dispatch', 'dispatch_await'):
             _, busn, typ, opts, var = op
             if in_handler and depth >= sc.get('max_depth', 2):
